@@ -110,7 +110,12 @@ func (sess *UserSession) Move(w *imapserver.MoveWriter, numSet imap.NumSet, dest
 	sess.mailbox.mutex.Lock()
 	defer sess.mailbox.mutex.Unlock()
 
-	seqNums := sess.mailbox.expungeLocked(expunged)
+	// expungeLocked queues the EXPUNGE updates for all sessions including
+	// ours: they are sent after the COPYUID response by the poll which follows
+	// the command. Writing them here as well would report each message twice
+	// (and EncodeSeqNum can't translate the sequence number of a message
+	// which is already gone).
+	sess.mailbox.expungeLocked(expunged)
 
 	err = w.WriteCopyData(&imap.CopyData{
 		UIDValidity: dest.uidValidity,
@@ -119,12 +124,6 @@ func (sess *UserSession) Move(w *imapserver.MoveWriter, numSet imap.NumSet, dest
 	})
 	if err != nil {
 		return err
-	}
-
-	for _, seqNum := range seqNums {
-		if err := w.WriteExpunge(sess.mailbox.tracker.EncodeSeqNum(seqNum)); err != nil {
-			return err
-		}
 	}
 
 	return nil
